@@ -265,7 +265,7 @@ pub fn check_invariants(ed: &EdState, hist: Option<&HistRaw>) -> Result<(), (&'s
                 return Err(("ctl", format!("edited line holds a control byte: {}", crate::json::show_bytes(&ed.line))));
             }
             if ed.cursor > s.chars().count() {
-                return Err(("bounds", format!("cursor {} beyond {} chars", ed.cursor, s.chars().count())));
+                return Err(("cursor", format!("cursor {} beyond {} chars", ed.cursor, s.chars().count())));
             }
         }
     }
